@@ -567,6 +567,11 @@ def run_impl_bisect(ctx, harness, cases, timeout, env=None, tag="impl"):
             break
         crashes.append((missing[0], rc, err[:2500] + "\n...\n" + err[-800:] if len(err) > 3300 else err))
         todo = missing[1:]
+        # a case that exceeds its time bound (per-case watchdog of the harness, or the batch timeout) costs its
+        # whole bound: three such inputs are reported, the rest of the batch is not run (finish() then reports
+        # the unexecuted cases next to the concrete violations)
+        if sum(1 for c in crashes if c[1] == 124) >= 3:
+            break
     return res, orc, crashes
 
 
